@@ -159,6 +159,7 @@ def make_track(kind: str = "video", timescale: Optional[int] = None,
                payload_bytes: Optional[Sequence[Optional[int]]] = None,
                largesize: Sequence[str] = (), moof_pssh: Union[bool, str] = False,
                senc_override: Union[bool, int] = False, aux_info_type: Union[bool, str] = False,
+               size0_last: Union[bool, str] = False,
                with_mehd: bool = True, traf_order: str = "trun_first",
                sample_durations_in: str = "trun", trun_data_offset: bool = True,
                trun_first_sample_flags: Optional[bool] = None, trun_cto: bool = False,
@@ -200,6 +201,9 @@ def make_track(kind: str = "video", timescale: Optional[int] = None,
                          IV size of tenc; 8 or 16: the sample entries use that IV size (may differ from tenc)
     aux_info_type        saiz and saio carry aux_info_type 'cenc' + aux_info_type_parameter 0 (flags 0x1);
                          'saiz' / 'saio': only that box
+    size0_last           the LAST box of the file uses the implied-size form (size field 0 = "extends to the
+                         end of the file", 14496-12 4.2): True / 'mdat' – the mdat of the last segment;
+                         'free' – a trailing `free` box behind the last mdat
     largesize            box types written with the 64-bit `largesize` header form (size field 1 + 8 byte
                          size): any of 'mdat', 'moof'
     moof_pssh            a version-1 `pssh` box (system id = Common PSSH, one KID) as a child of every moof:
@@ -270,6 +274,13 @@ def make_track(kind: str = "video", timescale: Optional[int] = None,
         else:
             mdat = box("mdat", payload)
         mdat_hdr = len(mdat) - len(payload)
+        tail = b""
+        if k == nseg - 1 and size0_last:
+            if size0_last == "free":
+                tail = struct.pack(">I4s", 0, b"free") + rng.randbytes(11)
+            else:
+                assert "mdat" not in largesize
+                mdat = struct.pack(">I4s", 0, b"mdat") + payload
 
         where = sample_durations_in
         if where != "trun" and len(set(durs)) != 1:
@@ -410,7 +421,7 @@ def make_track(kind: str = "video", timescale: Optional[int] = None,
         saio_offset = rel + senc_at if encrypted else 0
         moof, _ = moof_box(base_value, data_offset, saio_offset)
         assert len(moof) == moof_len
-        out += lead + moof + mdat
+        out += lead + moof + mdat + tail
         decode_time += durations[k]
     return bytes(out)
 
@@ -428,6 +439,8 @@ def layout(data: bytes) -> list[dict]:
         if size == 1:
             size = struct.unpack(">Q", data[pos + 8:pos + 16])[0]
             hdr = 16
+        elif size == 0:
+            size = n - pos
         t = typ.decode("latin-1")
         if t == "moov":
             seen_moov = True
